@@ -214,6 +214,13 @@ REVERTS = [
      """        # (statistics gathered before the row groups changed are void)
         self._statistics = None
 """, ""),
+    ('revert-F53-head-loop-variable-unbound', ['C06'], 'fastparquet/api.py',
+     """        i = -1  # no row groups: nothing to select
+""", ""),
+    ('revert-F54-iter-row-groups-skips-by-empty', ['C06'], 'fastparquet/api.py',
+     """            if len(df):
+""", """            if not df.empty:
+"""),
 ]
 
 # functions whose twins are run per property (module, qualname)
